@@ -21,6 +21,7 @@ func init() {
 		NotDecided: "timing of signal delivery; completeness of the work done when success is reported without cancellation; behaviour of the OS on rename.",
 		Rules: []rule{
 			{"C07.done-is-error", "every return reachable from a fired ctx.Done() case returns a non-nil error (3 frozen service-loop exceptions)", 20, c07DoneIsError},
+			{"C07.err-is-error", "a branch taken because ctx.Err() is non-nil never ends in a nil error", 0, c07ErrIsError},
 			{"C07.loops-observe-ctx", "each long-running entry point reaches a ctx.Done() receive within call depth 3", 10, c07LoopsObserve},
 			{"C07.cli", "signal handler cancels the root context that every command receives; Execute error exits non-zero", 4, c07Cli},
 			{"C07.tmp-rename", "rename of the temp file only on the nil edge of assembly; temp in the same directory; deferred removal", 3, c07TmpRename},
@@ -434,4 +435,66 @@ func c07TmpRename(c *Ctx) {
 		}
 	})
 	c.verdict(remOK, "cmd.writeWithTmpFile:deferred-remove", fn.Pos(), "os.Remove(temp) is deferred before the assembly starts", "the temp file is not removed on failure (no deferred os.Remove before the assembly call)")
+}
+
+// c07ErrIsError: code that polls ctx.Err() instead of receiving from Done(): on the edge on
+// which ctx.Err() was found non-nil every reachable return must yield a non-nil error.
+func c07ErrIsError(c *Ctx) {
+	for _, fn := range c.Funcs {
+		n := 0
+		for _, b := range fn.Blocks {
+			iff := lastIf(b)
+			if iff == nil {
+				continue
+			}
+			cm, truth, ok := cmpOf(iff.Cond)
+			if !ok || (cm.op != token.EQL && cm.op != token.NEQ) || !(isNilConst(cm.x) || isNilConst(cm.y)) {
+				continue
+			}
+			subj := cm.x
+			if isNilConst(cm.x) {
+				subj = cm.y
+			}
+			if !onlyOrigins(subj, func(o string) bool { return o == "call:(context.Context).Err#0" }) {
+				continue
+			}
+			n++
+			key := fmt.Sprintf("%s#ctxerr%d", fnKey(fn), n)
+			top := fn
+			for top.Parent() != nil {
+				top = top.Parent()
+			}
+			if why, ok := c07Exceptions[fnKey(top)]; ok {
+				c.info(key, iff.Pos(), "exception (service loop): %s", why)
+				continue
+			}
+			nonNilOnTrue := (cm.op == token.NEQ) == truth
+			to := b.Succs[1]
+			if nonNilOnTrue {
+				to = b.Succs[0]
+			}
+			var bad []string
+			h := &Hooks{
+				Return: func(st *State, ret *ssa.Return, results []Val) {
+					for i, r := range ret.Results {
+						if isErrorType(r.Type()) && results[i].N != NNon {
+							bad = append(bad, fmt.Sprintf("return at %s may yield a nil error although ctx.Err() was found non-nil (trail %s)", c.pos(ret.Pos()), strings.Join(st.Trail, ">")))
+						}
+					}
+				},
+			}
+			st := NewState()
+			st.V[subj] = Val{N: NNon, Class: ClsOther}
+			if u, ok := subj.(*ssa.UnOp); ok && u.Op == token.MUL {
+				st.V[st.cell(u.X)] = Val{N: NNon, Class: ClsOther}
+			}
+			Explore(fn, to, 0, b, st, h)
+			c.paths += h.Paths
+			if len(bad) > 0 {
+				c.bad(key, iff.Pos(), "%s", bad[0])
+			} else {
+				c.ok(key, iff.Pos(), "every return behind ctx.Err()!=nil yields a non-nil error")
+			}
+		}
+	}
 }
